@@ -210,6 +210,10 @@ void evaluate(const View& v, const Plan& plan, const std::string& pipeline) {
         return;
     }
     if (verdict().failed()) return;
+    if constexpr (meta::is_num_v<std::remove_cv_t<std::remove_reference_t<decltype(unwrap_(host))>>>) {
+        // a scalar result is computed on the host by every evaluator (output = static_cast<output_t>(view)): no device work to check
+        if (!dev.kernel_ran) { probe("c13.scalar_result_host_evaluated"); return; }
+    }
     if (!dev.kernel_ran) { fail("NO_KERNEL", "evaluation returned without any kernel having run", key("NO_KERNEL")); return; }
     if (dev.has_pending()) { fail("PENDING_KERNEL", "evaluation returned while a kernel was still pending (result read before synchronisation)", key("PENDING_KERNEL")); return; }
     if (!ok) { fail("HOST_EQUAL", pipeline + " on " C13_BACKEND_NAME ": " + why, key("HOST_EQUAL")); return; }
